@@ -525,6 +525,7 @@ def check_cpdfit(case, out):
     out.sample = {"parents": parents, "evidence_order": ev, "n_rows": len(y)}
 
 
+THOROUGH_SCALE = 8  # thorough-tier example counts are n["thorough"] x this (one thorough run then takes roughly 5-10 minutes on 16 cores)
 SUBCHECKS = [
     Sub("lgbn", check_lgbn, strategy=lambda tier: lg_case(), n={"quick": 150, "thorough": 2500},
         shards={"quick": 6, "thorough": 16}, doc="to_joint_gaussian, predict (conditional mean/covariance), fit (least squares) vs multivariate-normal algebra"),
